@@ -365,3 +365,4 @@ import checks_rebalance  # noqa: E402,F401
 import checks_auth  # noqa: E402,F401
 import checks_proxy  # noqa: E402,F401
 import checks_life  # noqa: E402,F401
+import checks_loss  # noqa: E402,F401
